@@ -17,6 +17,7 @@ CONC_LENS = [0, 1, 2, 5, 8, 8, 16, 16, 33, 64, 200]
 # newSaltedPRNGSeed keys HMAC with the salt; HMAC zero-pads its key, so salts that differ only in trailing NUL bytes
 # derive the same seed. The two probe salts below exercise exactly that (see known_findings.json).
 PROBE_TRAILING_NUL = True
+SALT_LENS = [0, 1, 4, 31, 32, 33, 63, 64, 65, 128, 135, 136, 137, 200]
 
 
 def b8(i):
@@ -217,6 +218,32 @@ def run(ctx):
     salts += [{"seed": seeds[0], "salt": list(b"ALPS")}, {"seed": seeds[1], "salt": list(b"a")}]      # repeated: same answer
     if PROBE_TRAILING_NUL:
         salts += [{"seed": seeds[2], "salt": list(b"a\x00")}, {"seed": seeds[2], "salt": [0]}]       # vs "a" and "" above
+    # the length dimension: salts of every length around HashLen (32), 64 and SHA3-256's HMAC block size (136), all bytes
+    # non-zero, and for each length partners that differ from it (a) in the last byte only, (b) only beyond byte 32,
+    # (c) only beyond byte 64, (d) only beyond byte 136, (e) by one more (non-zero) byte at the end
+    def sbytes(n, tag):
+        return [1 + (i * 7 + tag * 13) % 255 for i in range(n)]
+    fam = []
+    for n in SALT_LENS:
+        base = sbytes(n, 1)
+        fam.append(base)
+        if n >= 1:
+            fam.append(base[:-1] + [(base[-1] % 255) + 1])
+        for cut in (32, 64, 136):
+            if n > cut:
+                fam.append(base[:cut] + sbytes(n - cut, 2 + cut))
+        fam.append(base + [9])
+    for _ in range(6 if quick else 40):
+        n = rng.choice(SALT_LENS[1:])
+        base = [rng.randrange(1, 256) for _ in range(n)]
+        k = rng.randrange(n)
+        fam += [base, base[:k] + [(base[k] % 255) + 1] + base[k + 1:]]
+    uniq = []
+    for x in fam:
+        if x not in uniq:
+            uniq.append(x)
+    salts += [{"seed": s, "salt": x} for s in (seeds[0], seeds[3]) for x in uniq]
+    long_salts = [sbytes(65, 1), sbytes(65, 1)[:32] + sbytes(33, 34)]
     scs, nref, sc = [], 0, 0
     for s in seeds:
         sc += 1
@@ -228,6 +255,10 @@ def run(ctx):
             sc += 1
             x, n = seq_scenario(sc, s, st, {"intn": grid["intn"][:6], "ranges": grid["ranges"][:40], "flips": grid["flips"]}, rng, 20)
             scs.append(x); nref = max(nref, n)
+    for st in long_salts:            # streams of PRNGs salted with long salts that share their first 32 bytes
+        sc += 1
+        x, n = seq_scenario(sc, seeds[0], st, {"intn": grid["intn"][:4], "ranges": grid["ranges"][:10], "flips": grid["flips"][:4]}, rng, 5)
+        scs.append(x); nref = max(nref, n)
     trace, trace2, refs = run_seq(ctx, scs, nref, salts, "seq")
 
     nconc = 6 if quick else 60
@@ -318,6 +349,19 @@ def run(ctx):
         return se, by
     se1, by1 = split(trace)
     se2, by2 = split(trace2)
+    # Salt canaries on a seed no scenario uses: control, trailing-NUL twin, a second salt with the same derived seed,
+    # a derivation that differs from the independent HKDF, the same (seed, salt) deriving something else
+    FAKE = [9] * 32
+    sb = next(e for e in se1 if len(e["salt"]) == 33 and e["err"] == "")
+    flip = sb["out"][:-1] + [sb["out"][-1] ^ 1]
+    scan = [(dict(sb, seed=FAKE), ""),
+            (dict(sb, seed=FAKE, salt=sb["salt"] + [0]), "salt-collision:trailing-nul"),
+            (dict(sb, seed=FAKE, salt=sb["salt"][:32] + [sb["salt"][32] ^ 1]), "salt-collision"),
+            (dict(sb, seed=FAKE, salt=sb["salt"] + [8], out=flip), "salt-differs-from-independent-hkdf"),
+            (dict(sb, seed=FAKE, out=flip, ind=flip), "salt-not-deterministic")]
+    nreal_salt = len(se1)
+    se1 = se1 + [c[0] for c in scan]
+    se2 = se2 + [c[0] for c in scan]
     _, cby = split(ctrace)
     nsh = 1 if quick else 6
     plain = [s["sc"] for s in scs[:nplain]]
@@ -363,14 +407,21 @@ def run(ctx):
     nsalt = len(se1)
     if len(saltwhy) != nsalt:
         raise vlib.Machinery("SALT lines %d != Salt events %d" % (len(saltwhy), nsalt))
+    real_salt_bad = any(w for i, (w, e) in saltwhy.items() if i <= nreal_salt and e["seed"] == sb["seed"] and e["salt"] == sb["salt"])
+    for k, (c, want) in enumerate(scan):
+        got = saltwhy.pop(nreal_salt + 1 + k)[0]
+        # if the real event the canaries are cut from is itself rejected (a finding below), only "corrupted => rejected" can be required
+        if got != want and not (real_salt_bad and (got != "" or want == "")):
+            raise vlib.Machinery("salt canary %d: TLC said %r, expected %r" % (k, got, want))
+    nsalt = nreal_salt
     for idx, (why, e) in sorted(saltwhy.items()):
         if why:
-            other = [x for x in se1 if x["seed"] == e["seed"] and x["salt"] != e["salt"] and x["out"] == e["out"]]
-            kind = ":trailing-nul" if why == "salt-collision" and other and all(
-                bytes(x["salt"]).rstrip(b"\0") == bytes(e["salt"]).rstrip(b"\0") for x in other) else ""
-            ctx.finding("salt:" + why + kind, "newSaltedPRNGSeed(seed, %r): %s%s" % (bytes(e["salt"]), why,
-                        " with salt(s) %r" % [bytes(x["salt"]) for x in other] if other else ""),
-                        {"seed": e["seed"], "salt": e["salt"], "out": e["out"], "same_out_as_salts": [x["salt"] for x in other]})
+            other = [x for x in se1[:nreal_salt] if x["seed"] == e["seed"] and x["salt"] != e["salt"] and x["out"] == e["out"]]
+            ctx.finding("salt:" + why, "newSaltedPRNGSeed(seed, %r) [salt of %d bytes]: %s%s; identical in the two independent runs of the harness" % (
+                        bytes(e["salt"]), len(e["salt"]), why,
+                        " with salt(s) %r" % [bytes(x["salt"]) for x in other[:3]] if other and "collision" in why else ""),
+                        {"seed": e["seed"], "salt": e["salt"], "out": e["out"], "independent_hkdf": e["ind"],
+                         "same_out_as_salts": [x["salt"] for x in other[:5]]})
 
     # reproduce rejected scenarios alone, in fresh processes (at most 2 per provisional signature; the rest are counted)
     byid = {s["sc"]: s for s in scs + cscs}
@@ -417,6 +468,13 @@ def run(ctx):
         "flip_ge1": sum(1 for e in calls if e["ev"] == "Flip" and e["w"][0] < 128 and bytes(e["w"]) >= bytes([63, 240, 0, 0, 0, 0, 0, 0])),
         "flip_between": sum(1 for e in calls if e["ev"] == "Flip" and e["w"][0] < 128 and any(e["w"]) and bytes(e["w"]) < bytes([63, 240, 0, 0, 0, 0, 0, 0])),
     }
+    def pairs_sharing(n):
+        return sum(1 for a in range(len(uniq)) for b in range(a) if len(uniq[a]) > n and len(uniq[b]) > n and uniq[a][:n] == uniq[b][:n])
+    classes["salt_pairs_differing_only_beyond_byte_32"] = pairs_sharing(32)
+    classes["salt_pairs_differing_only_beyond_byte_64"] = pairs_sharing(64)
+    classes["salt_pairs_differing_only_beyond_byte_136"] = pairs_sharing(136)
+    classes["salt_pairs_differing_in_last_byte"] = sum(1 for a in range(len(uniq)) for b in range(a) if len(uniq[a]) == len(uniq[b]) > 0 and uniq[a][:-1] == uniq[b][:-1])
+    classes["salt_lengths"] = len({len(x) for x in uniq})
     for k, v in classes.items():
         if v == 0:
             raise vlib.Machinery("vacuity: no executed call of class %s" % k)
